@@ -10,6 +10,18 @@ BASE_NOTE = ('Trusted: Lean 4.33 kernel (axioms propext, Classical.choice, Quot.
              'equality with the code is checked on exactly representable inputs). ')
 
 CLAIMED = {
+    'C18': dict(
+        text=('Lean word-level model of GEOS-Chem binary punch files (two header records, three Fortran records per data block) '
+              'with encoder, independent decoder and the first-repetition rule by which bpch1 finds the unmarked time steps; '
+              'theorems for any number of steps, tracers and layers: the records tile the file (tiles), the decoder inverts the '
+              'encoder (refDecode_encode), time steps are recovered iff no tracer repeats within a step (groupSteps_flatten, '
+              'repeat_breaks_grouping); the scale factor/unit/name selection from tracerinfo/diaginfo (resolve_listed, '
+              'resolve_unlisted). Correspondence: python reference encoder = Lean encoder byte for byte; bpch1(noscale) presents '
+              'the encoded words and ncf2bpch of it reproduces the bytes; bpch1 scaled = float32(raw)*scale with the resolved name '
+              'and unit; bpch2 = bpch1. Three genuine defects repaired by fix: commits.'),
+        note=BASE_NOTE + 'float32 multiplication and numpy memmap stride arithmetic are observed, not proved; vertical-coordinate helper variables are not compared.',
+        technique='Lean 4 proof (record framing lemmas, induction over blocks and steps) + model/implementation correspondence + byte/numeric oracle',
+        design='§7 C18'),
     'C19': dict(
         text=('Lean model of the ICARTT (ffi1001) writer and of the position-driven reader at the level of typed lines. Theorems '
               'for ALL well-formed files (any number of records, variables, attributes): the header-line count declared on line 1 '
